@@ -134,7 +134,7 @@ class FnSplicer:
     def splice(self):
         rf, it, spec = self.rf, self.it, self.spec
         known = {'result', 'requires', 'ensures', 'decreases', 'loops', 'proofs', 'closures', 'props', 'note',
-                 'unroll_fn_array', 'opens_invariants', 'no_unwind', 'external_body', 'returns', 'mode_attr', 'assumed', 'slice_matches', 'retain', 'take_while_count', 'proved_in', 'rev_find', 'filter_map_collect', 'map_sum', 'for_each', 'opaque_bools', 'drop_lets', 'windows_position'}
+                 'unroll_fn_array', 'opens_invariants', 'no_unwind', 'external_body', 'returns', 'mode_attr', 'assumed', 'slice_matches', 'retain', 'take_while_count', 'proved_in', 'rev_find', 'filter_map_collect', 'map_sum', 'for_each', 'opaque_bools', 'drop_lets', 'windows_position', 'fwd_find_index'}
         bad = set(spec) - known
         if bad:
             raise ExtractError(f'unknown spec keys {bad}')
@@ -201,6 +201,8 @@ class FnSplicer:
             self._r7(dict(spec['take_while_count']))
         if spec.get('rev_find'):
             self._r11(spec['rev_find'])
+        if spec.get('fwd_find_index'):
+            self._r19()
         if spec.get('filter_map_collect'):
             self._r12(dict(spec['filter_map_collect']))
         if spec.get('map_sum'):
@@ -678,6 +680,44 @@ class FnSplicer:
             ci += 1
         if found != 1:
             raise ExtractError(f'{self._where()}: R11 needs exactly one `x.iter().enumerate().rev().find(|(i, c)| ..)` (found {found})')
+
+    def _r19(self):
+        """R19: `E.iter().enumerate().find(|(_, C)| PRED).map(|(I, _)| I)` (E a plain identifier naming a slice) =>
+        `{ let mut __j: usize = 0; let mut __hit: Option<usize> = None; loop { if __j >= E.len() { break; } let C = &&E[__j];
+           if PRED { __hit = Some(__j); break; } __j += 1; } __hit }`
+        -- the definition of enumerate + find + map-to-the-index on slice::Iter: the index of the first element that satisfies PRED
+        (the closure parameter of `find` is a `&(usize, &T)`, so C is a `&&T`). PRED is left untouched."""
+        rf, it = self.rf, self.it
+        ci = it.body[0] + 1; end = it.body[1]; found = 0
+        want = ['.', 'iter', '(', ')', '.', 'enumerate', '(', ')', '.', 'find', '(', '|', '(']
+        while ci < end:
+            if rf.ct(ci).kind == 'ident' and rf.ct(ci - 1).text != '.' and [rf.ct(ci + k).text for k in range(1, len(want) + 1)] == want:
+                E = rf.ct(ci).text
+                op = ci + 11; cp = rf.match(op)
+                tp = ci + 13; tc = rf.match(tp)
+                inner = [rf.ct(k).text for k in range(tp + 1, tc)]
+                if len(inner) != 3 or inner[0] != '_' or inner[1] != ',' or rf.ct(tc + 1).text != '|':
+                    raise ExtractError(f'{self._where()}: R19 needs a closure `|(_, c)| ..`')
+                C = inner[2]
+                PRED = rf.spaced(tc + 2, cp).strip()
+                # the `.map(|(i, _)| i)` that follows
+                tail = [rf.ct(cp + k).text for k in range(1, 14)]
+                if tail[:6] != ['.', 'map', '(', '|', '(', tail[5]] or tail[6:12] != [',', '_', ')', '|', tail[5], ')'] or rf.ct(cp + 6).kind != 'ident':
+                    raise ExtractError(f'{self._where()}: R19 needs `.map(|(i, _)| i)` after the find (found {" ".join(tail)})')
+                mp = cp + 12
+                before = rf.spaced(ci, mp + 1)
+                cl = f'invariant_except_break __hit is None,\ninvariant __j <= {E}@.len(),\nensures __hit matches Some(__h) ==> __h < {E}@.len(),\ndecreases {E}@.len() - __j,\n'
+                after = (f'{{ let mut __j: usize = 0; let mut __hit: Option<usize> = None; loop\n{cl}{{ if __j >= {E}.len() {{ break; }} let {C} = &&{E}[__j]; '
+                         f'if {PRED} {{ __hit = Some(__j); break; }} __j += 1; }} __hit }}')
+                self.clauses += 4
+                self.ed.replace(rf.ct(ci).start, rf.ct(mp).end, after)
+                self.desugared.append({'rule': 'R19', 'before': ' '.join(before.split()), 'after': ' '.join(after.replace(cl, '').split())})
+                found += 1
+                ci = mp + 1
+                continue
+            ci += 1
+        if found != 1:
+            raise ExtractError(f'{self._where()}: R19 needs exactly one `x.iter().enumerate().find(|(_, c)| ..).map(|(i, _)| i)` (found {found})')
 
     def _r12(self, cfg):
         """R12: `E.iter().enumerate().filter_map(|(I, C)| BODY).collect()` (E a plain identifier naming a slice; the target a Vec) =>
